@@ -124,6 +124,34 @@ def _job(args):
                 n += 1
                 for sig, msg in judge(o, steps, steps, "run"):
                     out.append((sig, f"W={W} steps={steps}: {msg}", ch.choices))
+        elif kind == "chain":
+            # run to k; restart with the unchanged step count (nothing to do: what a resubmitted batch job does
+            # after the run has finished); then restart with a larger step count under every completion order
+            from vf.explore import Chooser
+
+            d0 = os.path.join(base, "first")
+            scenario.build(d0, B=4, workers=W, steps=k, seed=seed, maxlength=12, screen=0, allowmaxlength=True)
+            o0 = run_once(d0, Chooser([]))
+            for sig, msg in judge(o0, k, k, "run"):
+                out.append((sig, f"W={W} steps={k}: {msg}", []))
+            for rep in range(steps):  # `steps` = number of no-op restarts in between
+                o1 = run_once(d0, Chooser([]), "restart.toml")
+                if o1["res"] == "done":
+                    for sig, msg in judge(o1, 0, k, "noop-restart"):
+                        out.append((sig, f"W={W}: run to {k}, restarted with steps={k}: {msg}", []))
+
+            def fn(ch):
+                d = os.path.join(base, "second")
+                if os.path.isdir(d):
+                    shutil.rmtree(d)
+                shutil.copytree(d0, d)
+                l2.set_steps(d, N2)
+                return run_once(d, ch, "restart.toml")
+
+            for ch, o in explore(fn):
+                n += 1
+                for sig, msg in judge(o, N2 - k, N2, "extend-after-noop-restart"):
+                    out.append((sig, f"W={W}: run to {k}, restarted {steps}x with steps={k} (nothing to do), then with steps={N2}: {msg}", ch.choices))
         elif kind == "kill":
             # W workers, `steps` steps; killed after k completions under every completion order (W-1 jobs
             # on record), restarted under every completion order
@@ -182,6 +210,9 @@ def run(ctx):
         for k in range(W, W + 3):
             for N2 in range(k, k + W + 2):
                 jobs.append(("restart", W, 0, k, N2, 1))
+    for W in (1, 2):
+        for reps in (1, 2):
+            jobs.append(("chain", W, reps, W + 1, W + 3, 1))
     for W in (2, 3):
         for steps in ((W + 2,) if ctx.quick else (W + 1, W + 2, W + 3)):
             for k in range(1, steps - W + 1 if ctx.quick else steps):
